@@ -197,10 +197,27 @@ MapCase(entries, v2) ==
      enc |-> IF v2 /\ HasNull(entries) THEN "err" ELSE "ok",
      bytes |-> IF v2 THEN (IF HasNull(entries) THEN <<>> ELSE Short2(Len(entries) \div 2) \o FlatMap(ElemV2, entries))
                ELSE Int4(Len(entries) \div 2) \o FlatMap(ElemV3, entries)]
+\* maps with several entries: the order of the entries on the wire is the encoder's choice (the document prescribes
+\* none), so the prescription is the head followed by the entries in ANY order: ents lists the entries' bytes, the
+\* harness checks membership; bytes is one admissible encoding (entries as listed), which must decode to the same map
+MapCaseN(entries, v2) ==
+    LET ent(i) == IF v2 THEN ElemV2(entries[2 * i - 1]) \o ElemV2(entries[2 * i]) ELSE ElemV3(entries[2 * i - 1]) \o ElemV3(entries[2 * i])
+        n == Len(entries) \div 2
+        head == IF v2 THEN Short2(n) ELSE Int4(n)
+        bad == v2 /\ HasNull(entries)
+    IN [fam |-> "coll", kind |-> "mapn", elems |-> entries, v2 |-> v2, enc |-> IF bad THEN "err" ELSE "ok",
+        head |-> head, ents |-> IF bad THEN <<>> ELSE [i \in 1..n |-> ent(i)],
+        bytes |-> IF bad THEN <<>> ELSE head \o FlatMap(LAMBDA i : ent(i), [i \in 1..n |-> i])]
+\* a UDT whose two fields have the same type (a Go map destination then holds two values of one type)
+Udt2Case(fields) == [fam |-> "coll", kind |-> "udt2", elems |-> fields, v2 |-> FALSE, enc |-> "ok", bytes |-> TupleSer(fields)]
 TupleCase(kind, fields) == [fam |-> "coll", kind |-> kind, elems |-> fields, v2 |-> FALSE, enc |-> "ok", bytes |-> TupleSer(fields)]
 CollCases ==
     {CollCase(k, e, v2) : k \in {"list", "set"}, e \in IntLists, v2 \in BOOLEAN}
     \cup {MapCase(e, v2) : e \in {<<>>, <<<<I32(1)>>, <<<<97>>>>>>, <<<<I32(1)>>, <<>>>>, <<<<I32(7)>>, <<<<>>>>>>}, v2 \in BOOLEAN}
+    \cup {MapCaseN(e, v2) : e \in {<<<<I32(1)>>, <<<<97>>>>, <<I32(2)>>, <<<<98, 98>>>>>>,
+                                    <<<<I32(1)>>, <<<<97>>>>, <<I32(2)>>, <<<<98>>>>, <<I32(3)>>, <<<<99, 100>>>>>>,
+                                    <<<<I32(5)>>, <<<<120>>>>, <<I32(6)>>, <<>>>>}, v2 \in BOOLEAN}
+    \cup {Udt2Case(f) : f \in {<<<<I32(10)>>, <<I32(20)>>>>, <<<<I32(10)>>, <<>>>>, <<<<>>, <<I32(20)>>>>}}
     \cup {TupleCase(k, f) : k \in {"tuple", "udt"},
                              f \in {<<<<I32(1)>>, <<<<97, 98>>>>>>, <<<<>>, <<<<97>>>>>>, <<<<I32(1)>>, <<>>>>, <<<<>>, <<>>>>, <<<<I32(9)>>, <<<<>>>>>>}}
     \* nested: list<list<int>> with a null inner list and an inner list holding a null
